@@ -90,14 +90,14 @@ def run_check(prop, mod, tier, seed, t0):
         lc = common_leanchecker(prop)
         if lc:
             problems.append(lc)
-    res = mod.run(tier, seed)
+    res = run_isolated(mod, tier, seed)
     known = common.load_known()
     failures = list(res.get("failures", []))
     mismatches = list(res.get("mismatches", []))
     broken = list(problems)
     if mismatches:
         broken.append(f"correspondence: {len(mismatches)} disagreement(s), first: {mismatches[0].what[:300]}")
-    if (broken) and not failures and hasattr(mod, "search"):
+    if (broken) and not failures and hasattr(mod, "search") and not res.get("crashed"):
         # a broken proof / correspondence is not by itself a violation: search for a failing input
         print(f"[{prop}] proof or correspondence broken; searching for a failing input ...")
         failures = list(mod.search(mismatches, seed))
@@ -164,6 +164,48 @@ def run_check(prop, mod, tier, seed, t0):
           f"evaluations={cov['evaluations']} distinct={cov['distinct_nontrivial']} "
           f"tie-mismatches={len(mismatches)} oracle-failures={len(failures)} wall={wall:.1f}s rc={rc}")
     return rc
+
+
+def run_isolated(mod, tier, seed):
+    """run the property's harness in a forked child: the real code is driven in-process (compiled kernels, raw pointers), so a
+    changed library can take the interpreter down; a dead child is a broken correspondence, not an infrastructure failure"""
+    import multiprocessing as mp
+    import pickle
+
+    ctx = mp.get_context("fork")
+    rd, wr = ctx.Pipe(duplex=False)
+
+    def child():
+        try:
+            out = mod.run(tier, seed)
+            wr.send_bytes(pickle.dumps(("ok", out)))
+        except common.Infra as e:
+            wr.send_bytes(pickle.dumps(("infra", str(e))))
+        except BaseException:
+            wr.send_bytes(pickle.dumps(("exc", traceback.format_exc())))
+        finally:
+            wr.close()
+
+    p = ctx.Process(target=child)
+    p.start()
+    wr.close()
+    data = None
+    try:
+        data = rd.recv_bytes()
+    except EOFError:
+        pass
+    p.join()
+    if data is None:
+        crash = common.Failure("tie", "harness-crash", f"the interpreter running the real code died (exit code {p.exitcode}) while the "
+                               f"harness was driving it: the code no longer behaves like the model on some generated input", {"exitcode": p.exitcode})
+        return {"failures": [], "mismatches": [crash], "evaluations": 0, "distinct_nontrivial": 0,
+                "rule": "harness process died", "samples": [], "tags": {}, "crashed": True}
+    kind, out = pickle.loads(data)
+    if kind == "infra":
+        raise common.Infra(out)
+    if kind == "exc":
+        raise RuntimeError(out)
+    return out
 
 
 def known_hits_cover(broken, known_hits):
